@@ -8,6 +8,7 @@ exit 3  checker error (traceback, vacuous contract, zero obligations, library-co
 from __future__ import annotations
 
 import argparse
+import types
 import importlib
 import json
 import os
@@ -76,63 +77,90 @@ def run_check(pid, tier, seed):
     from pyvc import session
     session._LOADER[0] = L
     t_z3 = 20000 if tier == "quick" else 90000
-    all_vcs = []
     funcs_ok, funcs_oor = [], []
-    # ---- functions against their contracts ---------------------------------
+    # ---- jobs: every (function, case) and every lemma is verified in its own worker process -------------------
+    jobs = []
     for q in pm.FUNCTIONS:
         con = contract.REGISTRY.get(q)
         if con is None:
             S.errors.append("no contract registered for %s" % q)
             continue
         for case in con.cases():
-            label = q if not case else "%s[%s]" % (q, ",".join("%s=%s" % kv for kv in sorted(case.items())))
-            rep = verify.verify_function(L, con, case=case, label=label)
-            rep.case = case
-            S.reports.append(rep)
-            if rep.error:
-                S.errors.append("%s: %s" % (label, rep.error))
-            if rep.vacuous:
-                S.errors.append("%s: contract is vacuous (hypotheses unsatisfiable)" % label)
-            if rep.out_of_reach:
-                funcs_oor.append((label, rep.out_of_reach))
-            else:
-                funcs_ok.append(label)
-            for vc in rep.vcs:
-                if case:
-                    vc.name = "%s[%s]" % (vc.name, ",".join("%s=%s" % kv for kv in sorted(case.items())))
-            all_vcs += rep.vcs
-    # ---- lemmas ---------------------------------------------------------------
+            jobs.append((pid, "func", q, case, t_z3))
     for ln in getattr(pm, "LEMMAS", []):
-        lm = lem.LEMMAS.get(ln)
-        if lm is None:
+        if ln not in lem.LEMMAS:
             S.errors.append("lemma %s not defined" % ln)
             continue
-        rep = lem.run_lemma(L, lm)
+        jobs.append((pid, "lemma", ln, None, t_z3))
+    jobs.append((pid, "bounded", tier, seed, t_z3))
+    from concurrent.futures import ProcessPoolExecutor
+    import multiprocessing as mp
+    cores = min(16, max(1, (os.cpu_count() or 4)))
+    inner = max(1, cores // max(1, len(jobs)))
+    jobs = [j + (inner, ) for j in jobs]
+    with ProcessPoolExecutor(max_workers=min(cores, len(jobs)), mp_context=mp.get_context("fork")) as pool:
+        results = list(pool.map(_job, jobs, chunksize=1))
+    all_vcs = []
+    bres = None
+    for job, r in zip(jobs, results):
+        if job[1] == "bounded":
+            if r.get("error"):
+                S.errors.append("bounded: " + r["error"])
+            bres = r.get("bres")
+            continue
+        rep = types.SimpleNamespace(**{k: v for k, v in r.items() if k != "vcs"})
+        rep.vcs = [types.SimpleNamespace(**v) for v in r["vcs"]]
         S.reports.append(rep)
         if rep.error:
-            S.errors.append("lemma %s: %s" % (ln, rep.error))
+            S.errors.append("%s: %s" % (rep.label, rep.error))
         if rep.vacuous:
-            S.errors.append("lemma %s: vacuous (hypotheses unsatisfiable)" % ln)
+            S.errors.append("%s: contract is vacuous (hypotheses unsatisfiable)" % rep.label)
         if rep.out_of_reach:
-            funcs_oor.append(("lemma:" + ln, rep.out_of_reach))
+            funcs_oor.append((rep.label, rep.out_of_reach))
+        elif job[1] == "func":
+            funcs_ok.append(rep.label)
         all_vcs += rep.vcs
+        npstub.USED.update(r.get("used", []))
+        L.sha.update(r.get("sha", {}))
+        L.dropped += r.get("dropped", [])
     # extra obligations produced by property-specific analyses (AST scans ...)
     if hasattr(pm, "extra_obligations"):
         try:
-            all_vcs += pm.extra_obligations(L, S)
+            extra = pm.extra_obligations(L, S)
+            backends.discharge_all(extra, t_z3_ms=t_z3, t_cvc5_ms=t_z3, use_cvc5=True, parallel=False)
+            for vc in extra:
+                all_vcs.append(types.SimpleNamespace(
+                    name=vc.name, kind=vc.kind, role=vc.role, props=vc.props, where=vc.where, note=vc.note,
+                    status=vc.status, backend=vc.backend, time=vc.time, detail=vc.detail, goal=str(vc.goal)[:300],
+                    n_hyps=len(vc.hyps), func=vc.func, replay=None))
         except Exception as e:
             S.errors.append("extra_obligations: " + "".join(traceback.format_exception(type(e), e, e.__traceback__))[-2000:])
     # only obligations that serve this property
     vcs = [vc for vc in all_vcs if not vc.props or pid in vc.props]
-    backends.discharge_all(vcs, t_z3_ms=t_z3, t_cvc5_ms=t_z3, use_cvc5=True, parallel=True)
-    # ---- bounded stand-in (run-time contracts on the real code) --------------
-    bres = None
-    if hasattr(pm, "bounded"):
-        try:
-            bres = pm.bounded(tier, seed)
-        except Exception as e:
-            S.errors.append("bounded: " + "".join(traceback.format_exception(type(e), e, e.__traceback__))[-3000:])
     S.bounded = bres
+    # ---- discharge every obligation (one pool over all of them) ----------------------------------------------
+    todo = [vc for vc in vcs if vc.status is None]
+    payload = [(vc.smt2, t_z3, t_z3, True, True, tuple(vc.derived)) for vc in todo]
+    if payload:
+        with ProcessPoolExecutor(max_workers=cores, mp_context=mp.get_context("fork")) as pool:
+            res = list(pool.map(backends._solve_one, payload, chunksize=1))
+            retry = []
+            for vc, (st, be, dt, info) in zip(todo, res):
+                vc.status, vc.backend, vc.time, vc.detail = st, be, dt, info
+                if getattr(vc, "filtered", False) and st in ("undecided", "refuted"):
+                    retry.append(vc)
+            if retry:
+                res2 = list(pool.map(backends._solve_one, [(vc.smt2_full, t_z3, t_z3, True, True, tuple(vc.derived_full))
+                                                           for vc in retry], chunksize=1))
+                for vc, (st, be, dt, info) in zip(retry, res2):
+                    vc.time += dt
+                    vc.status, vc.backend, vc.detail = st, be, info
+    for vc in vcs:
+        if vc.status == "refuted" and vc.func in contract.REGISTRY and getattr(vc, "smt2", None):
+            try:
+                vc.replay = replay_from_smt2(vc, contract)
+            except Exception as e:
+                vc.replay = {"error": "replay failed: %r" % e}
     # ---- verdicts ---------------------------------------------------------------
     expected_oor = dict(getattr(pm, "EXPECTED_OUT_OF_REACH", {}))
     for label, why in funcs_oor:
@@ -160,9 +188,7 @@ def run_check(pid, tier, seed):
         if vc.status == "refuted" and hit:
             S.known_hits.append((hit[0], {"vc": vc.name}))
             continue
-        rp = None
-        if vc.status == "refuted":
-            rp = generic_replay(vc, contract, S)
+        rp = vc.replay if vc.status == "refuted" else None
         if vc.status == "refuted" and vc.role in ("prop", "safety"):
             # replay: the verifier's counterexample against the real code; else a bounded search for a failing input
             found = None
@@ -228,6 +254,82 @@ def run_check(pid, tier, seed):
     return 0, S, ev
 
 
+def _job(job):
+    """worker: verify one function case / one lemma / run the bounded stand-in; returns plain data"""
+    pid, kind, name, case, t_z3, inner = job
+    import warnings as _w
+    _w.filterwarnings("ignore")
+    from pyvc import loader as ldr, verify, backends, contract, lemma as lem, npstub, session
+    pm = importlib.import_module("props." + pid)
+    if kind == "bounded":
+        try:
+            return {"bres": pm.bounded(name, case) if hasattr(pm, "bounded") else None}
+        except Exception as e:
+            return {"bres": None, "error": "".join(traceback.format_exception(type(e), e, e.__traceback__))[-3000:]}
+    for sc in pm.SIDECARS:
+        importlib.import_module(sc)
+    L = ldr.Loader(overrides=getattr(pm, "OVERRIDES", {}))
+    session._LOADER[0] = L
+    if kind == "func":
+        con = contract.REGISTRY[name]
+        label = name if not case else "%s[%s]" % (name, ",".join("%s=%s" % kv for kv in sorted(case.items())))
+        rep = verify.verify_function(L, con, case=case, label=label)
+        rep.case = case
+        suffix = "" if not case else "[%s]" % ",".join("%s=%s" % kv for kv in sorted(case.items()))
+        for vc in rep.vcs:
+            vc.name = vc.name + suffix
+    else:
+        label = "lemma:" + name
+        rep = lem.run_lemma(L, lem.LEMMAS[name])
+    vcs = [vc for vc in rep.vcs if not vc.props or pid in vc.props]
+    out = []
+    import z3 as _z3
+    for vc in vcs:
+        g = _z3.simplify(vc.goal)
+        trivial = _z3.is_true(g)
+        hyps = backends.relevant_hyps(vc.hyps, vc.goal) if not trivial else []
+        rec = {"name": vc.name, "kind": vc.kind, "role": vc.role, "props": list(vc.props), "where": vc.where,
+               "note": vc.note, "status": "discharged" if trivial else None, "backend": "simplify" if trivial else None,
+               "time": 0.0, "detail": "", "goal": str(vc.goal)[:300], "n_hyps": len(vc.hyps), "func": vc.func,
+               "replay": None, "case": case if kind == "func" else None}
+        if not trivial:
+            rec["smt2"] = backends.vc_to_smt2(hyps, vc.goal)
+            rec["derived"] = backends._derived_idx(vc, hyps)
+            rec["filtered"] = len(hyps) != len(vc.hyps)
+            if rec["filtered"]:
+                rec["smt2_full"] = backends.vc_to_smt2(vc.hyps, vc.goal)
+                rec["derived_full"] = backends._derived_idx(vc, vc.hyps)
+        out.append(rec)
+    return {"label": label, "paths": rep.paths, "out_of_reach": rep.out_of_reach, "error": rep.error,
+            "vacuous": rep.vacuous, "time": rep.time, "vcs": out, "used": sorted(npstub.USED), "sha": L.sha,
+            "dropped": L.dropped, "case": case}
+
+
+def replay_from_smt2(vc, contract):
+    """replay the solver's counter-model of a function-level obligation against the real code"""
+    import z3
+    from pyvc import replay as rpl, sym
+    from pyvc.engine import PathCtx, Run
+    con = contract.REGISTRY[vc.func]
+    case = vc.case or {}
+    txt = getattr(vc, "smt2_full", None) or vc.smt2
+    s_ = z3.Solver()
+    s_.set("timeout", 20000)
+    s_.from_string(txt)
+    if s_.check() != z3.sat:
+        return None
+    model = s_.model()
+    run = Run(vc.func, None)
+    ctx = PathCtx(run, [])
+    old = sym._CUR[0]
+    sym._CUR[0] = ctx
+    try:
+        sym_args = con.args(contract.C(), **case) if case else con.args(contract.C())
+    finally:
+        sym._CUR[0] = old
+    return rpl.replay_function_vc(vc, con, sym_args, case, model=model)
+
+
 def generic_replay(vc, contract, S):
     """replay the solver's counter-model of a function-level obligation against the real code"""
     from pyvc import replay as rpl, sym
@@ -264,7 +366,7 @@ def write_evidence(pm, S, L, vcs, funcs_ok, funcs_oor, bres, npstub):
     samples = []
     for vc in vcs[:6]:
         samples.append({"obligation": vc.name, "kind": vc.kind, "role": vc.role, "where": vc.where,
-                        "n_hypotheses": len(vc.hyps), "goal": str(vc.goal)[:300], "status": vc.status,
+                        "n_hypotheses": vc.n_hyps, "goal": vc.goal, "status": vc.status,
                         "backend": vc.backend})
     kinds = {}
     for vc in vcs:
